@@ -85,7 +85,8 @@ def run(chk):
             "T en-us-g1.ctb 99999", "T en-us-g1.ctb 0", "G en-us-g2.ctb", "C %s | always %%s 1-2-9" % (work / "warn.utb"),
             "C %s | nosuch 1" % (work / "warn.utb"), "T %s 0" % (work / "warn.utb"), "G unicode.dis,en-us-g1.ctb",
             "E 50000 " + "fatal%s".encode().hex(), "E 10000 " + "dbg".encode().hex(), "E 30000 " + "w%n".encode().hex(),
-            "T nonexistent.ctb 0", "K en-us-g1.ctb,%s" % (work / "bad%d.utb")]
+            "T nonexistent.ctb 0", "K en-us-g1.ctb,%s" % (work / "bad%d.utb"),
+            "B en-us-g1.ctb 99999", "B en-us-g1.ctb 0", "B en-us-g2.ctb 262144", "T en-us-g2.ctb 262144", "B nonexistent.ctb 0"]
     dump_texts = ["10% off", "a%sb %n %d", "100%", "%%", "plain text", "%x%x%x%x", "50%-60% %5$s"]
     pool += ["U en-us-g1.ctb " + t.encode().hex() for t in dump_texts]
     for i in range(12 * mult):
@@ -98,7 +99,8 @@ def run(chk):
             if r.chance(0.3):
                 seq.append(r.choice(["R 1", "R 2"]))
             seq.append(b)
-        lines = ["X S %d ; %s ; %s" % (t, " ; ".join(regs), " ; ".join(seq)) for t in LEVELS]
+        sink = work / ("sink%d.log" % i)
+        lines = ["X F %s ; S %d ; %s ; %s" % (sink, t, " ; ".join(regs), " ; ".join(seq)) for t in LEVELS]
         outs = common.run_stream(exe, [], lines, env=env, timeout=300)
         if any(isinstance(o, tuple) for o in outs):
             chk.count(lines[0])
@@ -106,8 +108,18 @@ def run(chk):
                           dict(script=lines))
             continue
         allcap, _ = parse_capture(outs[0])
+        # every call with a mode that is not a translation mode produces an error-level message (forward and backward alike)
+        ninv = len([b for b in seq if b[0] in "TB" and b.split()[-1] in ("99999", "262144") and "nonexistent" not in b])
+        nmsg = len([d for d in allcap if d[1] == 40000 and "Invalid mode".encode().hex() in d[2]])
+        if nmsg < ninv:
+            chk.violation("message-not-delivered", "%d calls with an invalid mode, but only %d 'Invalid mode' messages reached the callback at threshold ALL" % (ninv, nmsg),
+                          dict(script=lines[0], delivered=[bytes.fromhex(d[2]).decode("latin-1") for d in allcap][:20]))
         for t, o, ln in zip(LEVELS, outs, lines):
-            got, _ = parse_capture(o)
+            got, filehex = parse_capture(o)
+            if filehex:
+                chk.violation("default-sink-used", "a callback is registered, but the default sink received: %r" % bytes.fromhex(filehex).decode("latin-1")[:200],
+                              dict(script=ln))
+                break
             exp = [d for d in allcap if d[1] >= t]
             chk.count(ln, nontrivial=len(exp) != len(allcap) and len(exp) > 0)
             chk.tally("threshold_%d" % t)
